@@ -2,6 +2,7 @@ package main
 
 import (
 	"fmt"
+	"os"
 	"strings"
 
 	"github.com/cosmos/iavl"
@@ -124,6 +125,9 @@ func (s *Sys) execFault(op []string) string {
 				d := view(dumpTree(t2))
 				_ = t2.Close()
 				if d != oldD && d != newD {
+					if os.Getenv("VERIF_DEBUG") != "" {
+						fmt.Fprintf(os.Stderr, "DEBUG fault %v at %d/%d kind=%s\nOLD %s\nNEW %s\nGOT %s\n", op, i, n, kind, oldD, newD, d)
+					}
 					verdict = "reopenmixture"
 				}
 			}
